@@ -446,7 +446,12 @@ def main():
 if __name__ == "__main__":
     if len(sys.argv) > 2 and sys.argv[1] == "replay":
         spec = json.load(open(sys.argv[2]))
-        m = eval(spec["inputs"]["message"])
+        import re as _re
+        # fields that are not constructor arguments (tag_number of a message, control_type of the known controls) are dropped from the recorded repr
+        _txt = _re.sub(r"tag_number=\d+, ", "", spec["inputs"]["message"])
+        _txt = _re.sub(r"(PagedResultControl|ShowDeletedControl|ShowDeactivatedLinkControl)\(control_type='[^']*', ", r"\1(", _txt)
+        _txt = _re.sub(r"<(\w+)\.(\w+): [^>]*>", r"\1.\2", _txt)
+        m = eval(_txt)
         check_message(m, "quick")
         if "after other packs failed" in str(spec.get("clause", "")):
             first_bytes = bytes(m.pack(OPT))
